@@ -48,34 +48,35 @@ theorem htlcAmounts_head_eq_sum (fs : List Nat) : (htlcAmounts fs).headD 0 = fs.
 /-! ### the fee recurrence -/
 
 theorem hopStep_nonlast (value : Nat) (h : FeeHop) (st : St) (o : HopOut) (ho : hopStep value h false st = o) :
-    o.amt = max h.htlcMin (st.totalFeePaid + value) ∧
-    o.fee + (st.totalFeePaid + value) = st.nextUseFee + o.amt ∧
-    o.totalFeePaid + (st.totalFeePaid + value) = st.totalFeePaid + o.amt ∧
+    o.amt = max h.htlcMin (st.totalFeePaid + value + st.extra) ∧
+    o.fee + (st.totalFeePaid + value + st.extra) = st.nextUseFee + o.amt ∧
+    o.totalFeePaid + (st.totalFeePaid + value + st.extra) = st.totalFeePaid + o.amt ∧
     o.extra = st.extra := by
   subst ho
-  unfold hopStep chkSub
-  by_cases hc : st.totalFeePaid + value ≤ h.htlcMin
+  unfold hopStep chkSub cur_hop_transferred_amount_msat
+  by_cases hc : st.totalFeePaid + value + st.extra ≤ h.htlcMin
   · simp [hc] <;> omega
   · simp [hc] <;> omega
 
 theorem hopStep_last_init (value : Nat) (h : FeeHop) (o : HopOut) (ho : hopStep value h true St.init = o) :
     o.amt = max h.htlcMin value ∧ o.fee = o.amt ∧ o.totalFeePaid = 0 ∧ o.amt = value + o.extra := by
   subst ho
-  unfold hopStep chkSub St.init
+  unfold hopStep chkSub St.init cur_hop_transferred_amount_msat
   by_cases hc : value ≤ h.htlcMin
   · simp [hc] <;> omega
   · simp [hc] <;> omega
 
+/-- loop invariant after the iterations for a non-empty suffix `h :: rest` of the hop list -/
 structure LoopInv (value : Nat) (h : FeeHop) (rest : List FeeHop) (st : St) : Prop where
   len : st.fees.length = (h :: rest).length
   carry : st.totalFeePaid + value + st.extra = (htlcAmounts st.fees).headD 0 + st.nextUseFee
-  extraLe : st.extra ≤ (htlcAmounts st.fees).headD 0
-  use : compute_fees ((htlcAmounts st.fees).headD 0 - (if rest.isEmpty then 0 else st.extra)) h.base h.prop = some st.nextUseFee
+  use : compute_fees ((htlcAmounts st.fees).headD 0) h.base h.prop = some st.nextUseFee
   mins : MinsOK (h :: rest) (htlcAmounts st.fees)
-  margins : MarginsOK st.extra (h :: rest) (htlcAmounts st.fees)
-  exact : ExactOK st.extra (h :: rest) (htlcAmounts st.fees)
+  margins : MarginsOK (h :: rest) (htlcAmounts st.fees)
+  exact : ExactOK (h :: rest) (htlcAmounts st.fees)
   last : st.fees.getLast? = some (value + st.extra)
   lastMin : ∀ l, (h :: rest).getLast? = some l → value + st.extra = max value l.htlcMin
+  tracked : st.amts = htlcAmounts st.fees
 
 theorem go_single (value : Nat) (h : FeeHop) (st : St) (hg : go value [h] = some st) : LoopInv value h [] st := by
   simp only [go, List.isEmpty_nil] at hg
@@ -88,7 +89,6 @@ theorem go_single (value : Nat) (h : FeeHop) (st : St) (hg : go value [h] = some
     subst hg
     refine ⟨by simp [St.init], ?_, ?_, ?_, ?_, ?_, ?_, ?_, ?_⟩
     · simp [htlcAmounts, St.init]; omega
-    · simp [htlcAmounts, St.init]; omega
     · simpa [htlcAmounts, St.init, h2] using hf
     · simp [htlcAmounts, St.init, MinsOK]; omega
     · simp [MarginsOK]
@@ -97,6 +97,7 @@ theorem go_single (value : Nat) (h : FeeHop) (st : St) (hg : go value [h] = some
     · intro l hl
       simp at hl; subst hl
       simp only []; omega
+    · simp [htlcAmounts, St.init, h2]
 
 theorem htlcAmounts_cons_head (f : Nat) (t : List Nat) :
     (htlcAmounts (f :: t)).headD 0 = f + (htlcAmounts t).headD 0 := by simp [htlcAmounts]
@@ -110,45 +111,32 @@ theorem step_inv (value : Nat) (h h' : FeeHop) (rest : List FeeHop) (st' : St) (
         fees := o.fee :: st'.fees, amts := o.amt :: st'.amts } := by
   obtain ⟨h1, h2, h3, h4⟩ := hopStep_nonlast value h st' o ho
   have hc := inv.carry
-  have hE := inv.extraLe
-  -- the new head amount is the tracked amount plus the final-hop raise
-  have hhead : o.fee + (htlcAmounts st'.fees).headD 0 = o.amt + st'.extra := by omega
+  -- the new head amount is exactly the amount the code tracked
+  have hhead : o.fee + (htlcAmounts st'.fees).headD 0 = o.amt := by omega
   cases hfs : st'.fees with
   | nil => have := inv.len; simp [hfs] at this
   | cons f' t' =>
     have hA' : (htlcAmounts st'.fees).headD 0 = f' + (htlcAmounts t').headD 0 := by rw [hfs]; simp [htlcAmounts]
-    refine ⟨by simp [inv.len, hfs] ; have := inv.len; simp [hfs] at this; omega, ?_, ?_, ?_, ?_, ?_, ?_, ?_, ?_⟩
+    have hsum : o.fee + (f' + (htlcAmounts t').headD 0) = o.amt := by rw [← hA']; exact hhead
+    refine ⟨by have := inv.len; simp [hfs] at this; simp; omega, ?_, ?_, ?_, ?_, ?_, ?_, ?_, ?_⟩
     · simp only [htlcAmounts_cons_head, h4]; rw [← hA']; omega
-    · simp only [htlcAmounts_cons_head, h4]; rw [← hA']; omega
-    · simp only [htlcAmounts_cons_head, h4, List.isEmpty_cons, Bool.false_eq_true, if_false]; rw [← hA']
-      have : o.fee + (htlcAmounts st'.fees).headD 0 - st'.extra = o.amt := by omega
-      rw [this]; exact hf
+    · simp only [htlcAmounts_cons_head]; rw [← hA', hhead]; exact hf
     · have hm := inv.mins
       rw [hfs] at hm
-      simp only [htlcAmounts, MinsOK, h4, List.headD_cons] at hm ⊢
-      refine ⟨?_, hm⟩
-      have : o.fee + (f' + (htlcAmounts t').headD 0) = o.amt + st'.extra := by rw [← hA']; exact hhead
-      omega
+      simp only [htlcAmounts, MinsOK, List.headD_cons] at hm ⊢
+      exact ⟨by omega, hm⟩
     · have hm := inv.margins
       have hu := inv.use
       rw [hfs] at hm hu
-      simp only [htlcAmounts, MarginsOK, h4, List.headD_cons] at hm hu ⊢
-      refine ⟨⟨st'.nextUseFee, ?_, ?_⟩, hm⟩
-      · simpa [htlcAmounts] using hu
-      · have : o.fee + (f' + (htlcAmounts t').headD 0) = o.amt + st'.extra := by rw [← hA']; exact hhead
-        omega
+      simp only [htlcAmounts, MarginsOK, List.headD_cons] at hm hu ⊢
+      exact ⟨⟨st'.nextUseFee, by simpa [htlcAmounts] using hu, by omega⟩, hm⟩
     · have hm := inv.exact
       have hu := inv.use
       rw [hfs] at hm hu
-      simp only [htlcAmounts, ExactOK, h4, List.headD_cons] at hm hu ⊢
-      refine ⟨⟨st'.nextUseFee, ?_, ?_, ?_, ?_⟩, hm⟩
-      · simpa [htlcAmounts] using hu
-      · have : o.fee + (f' + (htlcAmounts t').headD 0) = o.amt + st'.extra := by rw [← hA']; exact hhead
-        omega
-      · rw [← hA']; exact hE
-      · have : o.fee + (f' + (htlcAmounts t').headD 0) = o.amt + st'.extra := by rw [← hA']; exact hhead
-        rw [← hA'] at this ⊢
-        omega
+      simp only [htlcAmounts, ExactOK, List.headD_cons] at hm hu ⊢
+      refine ⟨⟨st'.nextUseFee, by simpa [htlcAmounts] using hu, ?_⟩, hm⟩
+      rw [← hA'] at hsum ⊢
+      omega
     · have hl := inv.last
       rw [hfs] at hl
       simp only [h4]
@@ -157,6 +145,10 @@ theorem step_inv (value : Nat) (h h' : FeeHop) (rest : List FeeHop) (st' : St) (
       simp only [h4]
       rw [List.getLast?_cons_cons] at hl
       exact inv.lastMin l hl
+    · have ht := inv.tracked
+      rw [hfs] at ht
+      simp only [htlcAmounts, List.headD_cons] at ht ⊢
+      rw [ht, hsum]
 
 theorem go_inv (value : Nat) : ∀ (rest : List FeeHop) (h : FeeHop) (st : St),
     go value (h :: rest) = some st → LoopInv value h rest st := by
@@ -178,15 +170,16 @@ theorem go_inv (value : Nat) : ∀ (rest : List FeeHop) (h : FeeHop) (st : St),
         subst hg
         exact step_inv value h h' rest' st' o nf (ih h' st' hg') ho hf
 
-/-- what `recompute` guarantees about its result (E = `ret - value` is the final-hop raise) -/
+/-- what `recompute` guarantees about its result -/
 structure RecInv (value : Nat) (hops : List FeeHop) (res : Result) : Prop where
   len : res.fees.length = hops.length
   retGe : value ≤ res.ret
   mins : MinsOK hops (htlcAmounts res.fees)
-  margins : MarginsOK (res.ret - value) hops (htlcAmounts res.fees)
-  exact : ExactOK (res.ret - value) hops (htlcAmounts res.fees)
+  margins : MarginsOK hops (htlcAmounts res.fees)
+  exact : ExactOK hops (htlcAmounts res.fees)
   last : hops ≠ [] → res.fees.getLast? = some res.ret
   lastMin : ∀ l, hops.getLast? = some l → res.ret = max value l.htlcMin
+  tracked : res.amts = htlcAmounts res.fees
 
 theorem recompute_inv (value : Nat) (hops : List FeeHop) (res : Result)
     (hr : recompute value hops = some res) : RecInv value hops res := by
@@ -195,7 +188,7 @@ theorem recompute_inv (value : Nat) (hops : List FeeHop) (res : Result)
     simp only [recompute, Option.some.injEq] at hr
     subst hr
     exact ⟨rfl, Nat.le_refl _, by simp [htlcAmounts, MinsOK], by simp [htlcAmounts, MarginsOK],
-      by simp [htlcAmounts, ExactOK], by simp, by simp⟩
+      by simp [htlcAmounts, ExactOK], by simp, by simp, by simp [htlcAmounts]⟩
   | cons h rest =>
     cases rest with
     | nil =>
@@ -204,7 +197,7 @@ theorem recompute_inv (value : Nat) (hops : List FeeHop) (res : Result)
       obtain ⟨h1, h2, h3, h4⟩ := hopStep_last_init value h o ho
       subst hr
       refine ⟨by simp [St.init], by simp, ?_, by simp [St.init, htlcAmounts, MarginsOK],
-        by simp [St.init, htlcAmounts, ExactOK], ?_, ?_⟩
+        by simp [St.init, htlcAmounts, ExactOK], ?_, ?_, by simp [St.init, htlcAmounts, h2]⟩
       · simp [St.init, htlcAmounts, MinsOK]; omega
       · intro _; simp [St.init]; omega
       · intro l hl; simp at hl; subst hl; simp only []; omega
@@ -219,15 +212,13 @@ theorem recompute_inv (value : Nat) (hops : List FeeHop) (res : Result)
         have inv := go_inv value rest' h' st' hg'
         obtain ⟨h1, h2, h3, h4⟩ := hopStep_nonlast value h st' o ho
         have hc := inv.carry
-        have hE := inv.extraLe
-        have hhead : o.fee + (htlcAmounts st'.fees).headD 0 = o.amt + st'.extra := by omega
-        have hsub : value + o.extra - value = st'.extra := by omega
+        have hhead : o.fee + (htlcAmounts st'.fees).headD 0 = o.amt := by omega
         cases hfs : st'.fees with
         | nil => have := inv.len; simp [hfs] at this
         | cons f' t' =>
           have hA' : (htlcAmounts st'.fees).headD 0 = f' + (htlcAmounts t').headD 0 := by rw [hfs]; simp [htlcAmounts]
-          have hsum : o.fee + (f' + (htlcAmounts t').headD 0) = o.amt + st'.extra := by rw [← hA']; exact hhead
-          refine ⟨by have := inv.len; simp [hfs] at this; simp; omega, by simp, ?_, ?_, ?_, ?_, ?_⟩
+          have hsum : o.fee + (f' + (htlcAmounts t').headD 0) = o.amt := by rw [← hA']; exact hhead
+          refine ⟨by have := inv.len; simp [hfs] at this; simp; omega, by simp, ?_, ?_, ?_, ?_, ?_, ?_⟩
           · have hm := inv.mins
             rw [hfs] at hm
             simp only [htlcAmounts, MinsOK, List.headD_cons] at hm ⊢
@@ -235,13 +226,13 @@ theorem recompute_inv (value : Nat) (hops : List FeeHop) (res : Result)
           · have hm := inv.margins
             have hu := inv.use
             rw [hfs] at hm hu
-            simp only [hsub, htlcAmounts, MarginsOK, List.headD_cons] at hm hu ⊢
+            simp only [htlcAmounts, MarginsOK, List.headD_cons] at hm hu ⊢
             exact ⟨⟨st'.nextUseFee, by simpa [htlcAmounts] using hu, by omega⟩, hm⟩
           · have hm := inv.exact
             have hu := inv.use
             rw [hfs] at hm hu
-            simp only [hsub, htlcAmounts, ExactOK, List.headD_cons] at hm hu ⊢
-            refine ⟨⟨st'.nextUseFee, by simpa [htlcAmounts] using hu, by omega, by rw [← hA']; exact hE, ?_⟩, hm⟩
+            simp only [htlcAmounts, ExactOK, List.headD_cons] at hm hu ⊢
+            refine ⟨⟨st'.nextUseFee, by simpa [htlcAmounts] using hu, ?_⟩, hm⟩
             rw [← hA'] at hsum ⊢
             omega
           · intro _
@@ -251,6 +242,10 @@ theorem recompute_inv (value : Nat) (hops : List FeeHop) (res : Result)
           · intro l hl
             rw [List.getLast?_cons_cons] at hl
             rw [h4]; exact inv.lastMin l hl
+          · have ht := inv.tracked
+            rw [hfs] at ht
+            simp only [htlcAmounts, List.headD_cons] at ht ⊢
+            rw [ht, hsum]
 
 /-! ### the route checker -/
 
